@@ -142,6 +142,11 @@ def score_work(job):
         if job['sys'] == 'ty' and k % 97 == 0:
             # other spellings of the event and gender arguments (blank-padded, lower case), where the Python reference answers them
             ev = job['ev']
+            # ages as they may arrive: a float worked out from dates, text
+            for age2 in (job['age'] + 0.5, job['age'] + 0.99, float(job['age']), str(job['age']), ' %d ' % job['age']):
+                for name, val, manual in forms[:2]:
+                    if 'e' not in jsdiff.py_eval(athlib.tyrving_score, [job['g'], age2, ev, val]):
+                        args.append([job['g'], age2, ev, val])
             for ev2, g2 in ((' ' + ev, job['g']), (ev + ' ', job['g']), ('\t' + ev, job['g']), (ev.lower(), job['g']), (ev, job['g'].lower()), (' ' + ev.lower() + ' ', job['g'])):
                 for name, val, manual in forms:
                     if isinstance(val, str) and 'e' not in jsdiff.py_eval(athlib.tyrving_score, [g2, job['age'], ev2, val]):
@@ -157,6 +162,8 @@ def score_work(job):
         def sig(a_, py, js):
             if a_[2] != job['ev'] or a_[0] != job['g']:
                 return 'event-or-gender-spelling'
+            if a_[1] != job['age'] or type(a_[1]) is not int:
+                return 'age-form'
             dist = sc.setup()['ty']._tyrvingTables[a_[0]][a_[2]][1][0] if job.get('kind') == 'race' else None
             hand = isinstance(a_[3], str) and U().is_hand_timing(a_[3])
             return 'hand-timed-%s' % ('40-60-80-300' if dist in (40, 60, 80, 300) else 'other') if hand else ''
